@@ -100,6 +100,7 @@ from mypy.nodes import TempNode as TempNode
 from mypy.nodes import TryStmt as TryStmt
 from mypy.nodes import TupleExpr as TupleExpr
 from mypy.nodes import TypeAlias as TypeAlias
+from mypy.nodes import TypeAliasStmt as TypeAliasStmt
 from mypy.nodes import TypeAliasExpr as TypeAliasExpr
 from mypy.nodes import TypeApplication as TypeApplication
 from mypy.nodes import TypedDictExpr as TypedDictExpr
@@ -932,6 +933,15 @@ def _(node: MappingPattern, visitor: TraverserVisitor) -> None:
 @accept.register
 def _(node: ClassPattern, visitor: TraverserVisitor) -> None:
     return visitor.visit_class_pattern(node)
+
+
+@accept.register
+def _(node: TypeAliasStmt, visitor: TraverserVisitor) -> None:
+    # PEP 695 `type X = ...` statements have no `visit_*` method of their own
+    # (see METHOD_NODE_MAPPINGS), so traverse their children directly, like
+    # Mypy's own traverser does.
+    accept(node.name, visitor)
+    accept(node.value, visitor)
 
 
 @accept.register
